@@ -102,12 +102,18 @@ def subMatches (W : World) (a : KAuto) (w : String) : Bool × Bool × List Call 
 
 /-- the class C01 is stated for: at every point of the word expression no expected literal is a proper
 prefix of another one (otherwise how a typed text splits into values is C12's subject) -/
-def prefixFree (a : KAuto) : Bool :=
+def prefixFree (W : World) (a : KAuto) : Bool :=
   a.states.all fun q =>
     let lits := (trans a q).filterMap fun (it, _) => match it with
       | .lit t _ => some t
       | _ => none
-    lits.all fun x => lits.all fun y => x == y || !(isPrefix x y)
+    -- … and no candidate of a command expected inside the word is a proper prefix of another one of that
+    -- command (`alexander`, `alexander-the-great`): which of them a typed text begins with is then decided
+    -- by the order in which the template tries them, not by the grammar
+    let cmdsOK := (trans a q).all fun (it, _) => match it with
+      | .cmd c _ => (W.fields c).all fun x => (W.fields c).all fun y => x == y || !(isPrefix x y)
+      | _ => true
+    cmdsOK && lits.all fun x => lits.all fun y => x == y || !(isPrefix x y)
 
 def maxLevel (a : KAuto) : Nat :=
   a.trans.foldl (fun m t => match itemOfKey t.2.1 with
@@ -123,7 +129,7 @@ def within (W : World) (a : KAuto) (p : String) : List String × List Call × Li
   let (reach, calls0) := subAll W a w
   let best := reach.foldl (fun m x => max m x.2) 0
   let pts := reach.filter fun x => x.2 == best
-  let unique := pts.length ≤ 1 && prefixFree a
+  let unique := pts.length ≤ 1 && prefixFree W a
   match pts.head? with
   | none => ([], calls0, [], unique)
   | some (q, pos) =>
